@@ -117,13 +117,15 @@ def files(ctx, out):
         import copy
 
         src2 = copy.deepcopy(src)
-        tags = rng.sample(["Foo", "ExpertVocals", "song", "SingleExpert", "Expert Single", "日本", "EasySingleX"], rng.randint(1, 3))
+        tags = rng.sample(["Foo", "ExpertVocals", "song", "SingleExpert", "Expert Single", "日本", "EasySingleX", "Editor-State", "Backup 2024.01.02", "a.b", "x]y", "é", "Expert\tSingle"], rng.randint(1, 3))
         src2.unknown = [(t, [rng.choice(["  0 = N 0 0", "junk", "  Resolution = 1", "  0 = B 1", "[x]", ""]) for _ in range(rng.randint(0, 4))]) for t in tags]
         R2 = gen.render(src2, rng, prof, newline="\n")
         x0 = impl.run_chart(gen.render(src, rng, prof, newline="\n", garbage=False).text)
         x2 = impl.run_chart(R2.text)
         rp = {"op": "unknown", "text": R2.text, "tags": tags}
         out.case("U" + fw.h(R2.text), True, None, tags=["unknown-sections"])
+        if x2.startswith("E ") and not x0.startswith("E "):
+            out.violation("unknown-" + fw.h(R2.text), f"sections {tags} that no table knows made the parse raise {x2[:60]}", rp, observed=x2[:300], promised=x0[:300])
         if not x2.startswith("E "):
             d2 = gen.parse_dump(x2)
             if strip_warn(x2) != strip_warn(x0) or sorted(gen.uncps(u) for u in d2["unhandled"]) != sorted(tags):
@@ -145,6 +147,19 @@ def files(ctx, out):
         meta.append(("missing", x3, rp))
         if x3 != "E ValueError":
             out.violation("missing-" + fw.h(text), f"chart without [{drop}] gave {x3[:80]}", rp, observed=x3[:200], promised="E ValueError")
+        # … also when another required section is written twice (a missing section is missing however many headers the file has)
+        twice = rng.choice([t_ for t_ in gen.REQUIRED_TAGS if t_ != drop])
+        lines = []
+        for tag, body in secs:
+            lines += ([f"[{tag}]", "{"] + body + ["}"]) * (2 if tag == twice else 1)
+        text = "\n".join(lines) + "\n"
+        x4 = impl.run_chart(text)
+        rp = {"op": "missing", "text": text, "dropped": drop}
+        out.case("M" + fw.h(text), True, None, tags=["missing-" + drop + "-twice-" + twice])
+        reqs.append(f"chart {driver.cps(text)} ~")
+        meta.append(("missing", x4, rp))
+        if x4 != "E ValueError":
+            out.violation("missing-" + fw.h(text), f"chart without [{drop}] and with [{twice}] written twice gave {x4[:80]}", rp, observed=x4[:200], promised="E ValueError")
     mod = driver.run_parallel(reqs)
     for (nm, x, rp), m in zip(meta, mod):
         out.traces += 1
